@@ -502,6 +502,76 @@ fn stream_ops(ctx: &mut Ctx, r: &mut Rng) {
         };
         ctx.emit(l.finish(&out));
     }
+    // TLS at packet level: a COMPLETE record that the parser rejects (or that is not a ClientHello), then a valid
+    // ClientHello on the SAME 4-tuple: the flow must have been dropped / reset, so the hello is reported as by a
+    // fresh analyzer
+    let n = ctx.n(600, 6000);
+    for i in 0..n {
+        let mut bad = net::client_hello(r);
+        match r.below(4) {
+            0 => {
+                // corrupt the body, keep the record header and length intact
+                for _ in 0..r.range(1, 4) {
+                    let p = r.range(5, bad.len() as u64 - 1) as usize;
+                    bad[p] ^= 1 << r.below(8);
+                }
+            }
+            1 => bad = vec![0x16, 3, 3, 0, 4, 0, 0, 0, 0], // HelloRequest: a handshake record, not a ClientHello
+            2 => {
+                // inner handshake length lies
+                bad[6] = 0xff;
+            }
+            _ => {
+                let p = r.range(9, (bad.len() - 1).min(60) as u64) as usize;
+                bad[p] = r.next() as u8;
+            }
+        }
+        let verdict = huginn_net_tls::tls_process::parse_tls_client_hello(&bad);
+        let complete = bad.len() >= 5 && u16::from_be_bytes([bad[3], bad[4]]) as usize + 5 == bad.len();
+        if !complete || matches!(verdict, Ok(Some(_))) {
+            continue; // still a valid hello, or not a complete record: nothing is demanded of the follow-up
+        }
+        let c = (net::v4(0x0a01_0000 + i as u32), 40000);
+        let sv = (net::v4(0x0a02_0001), 443);
+        let k = r.range(1, 3) as usize;
+        let parts = net::split_random(r, &bad, k);
+        let mut rr = Rng::new(i as u64 ^ 0x55);
+        let hello = net::client_hello(&mut rr);
+        let mut l = Line::op("C01.tlsflow");
+        l.tok(if verdict.is_err() { "rejected" } else { "nonhello" }).usize(parts.len()).bytes(&bad);
+        begin(&format!("C01.tlsflow #{i}"));
+        let out = match catch_unwind(AssertUnwindSafe(|| {
+            let mut cache: TtlCache<huginn_net_tls::FlowKey, huginn_net_tls::TlsClientHelloReader> = TtlCache::new(100);
+            let mut seq = 1u32;
+            let mut send = |cache: &mut TtlCache<huginn_net_tls::FlowKey, huginn_net_tls::TlsClientHelloReader>, p: &[u8]| -> String {
+                let mut g = Seg::new(c, sv, ACK | PSH);
+                g.seq = seq;
+                seq = seq.wrapping_add(p.len() as u32);
+                g.payload = p.to_vec();
+                let b = net::ip_bytes(&g);
+                let ip = pnet::packet::ipv4::Ipv4Packet::new(&b).unwrap();
+                match huginn_net_tls::process_ipv4_packet(&ip, cache) {
+                    Ok(o) => canon::tls(&o),
+                    Err(_) => "err".into(),
+                }
+            };
+            for p in &parts {
+                let _ = send(&mut cache, p);
+            }
+            let a = send(&mut cache, &hello);
+            let mut fresh: TtlCache<huginn_net_tls::FlowKey, huginn_net_tls::TlsClientHelloReader> = TtlCache::new(100);
+            let b = send(&mut fresh, &hello);
+            if a == b && a != "-" {
+                "ok".to_string()
+            } else {
+                format!("POISONED:{a}!={b}")
+            }
+        })) {
+            Ok(s) => s,
+            Err(_) => "PANIC:tlsflow".to_string(),
+        };
+        ctx.emit(l.finish(&out));
+    }
     // HTTP/1, HTTP/2 byte streams and the incremental HTTP/2 fingerprint extractor
     let n = ctx.n(3000, 30000);
     for i in 0..n {
